@@ -23,6 +23,7 @@
 //! Result line (implementation):
 //!   ok R <n> {ok|t|f|err|panic}*  S <fee|~> <nouts> {<addr> <extra> VALUE}* <nins> {<id>}* COL <k> {<id>}* <~ | <addr> VALUE> <total|~>  TX <~ | BODY>
 //!      ORA <nops> { <k> {<site> <answer|e>}*k <~ | <ok 0|1> <m> {<id>}*m> }*
+//!      TXB <~ | hex of tx.to_bytes()>  AT <n> {<addr id> <address bytes hex>}*  RT <n> {<reward id> <reward address bytes hex>}*
 //!   BODY := <nin> {id}* <nout> {<addr> <extra> VALUE}* <fee> <ncert> {<tag> <coin|~>}* <nwd> {<addr> <coin>}*
 //!           <nmint> {<policy> <name> <qty>}* <nprops> {<deposit>}* <donation>
 //! The ORA section is what hook H2 (rust/src/verif_oracle.rs) recorded per operation: the model consumes it as its
@@ -394,6 +395,7 @@ struct World {
     tb: TransactionBuilder,
     utxos: HashMap<u64, Val>,
     addr_ids: HashMap<Vec<u8>, u64>,
+    rw_ids: HashMap<Vec<u8>, u64>,
     policy_idx: HashMap<Vec<u8>, u64>,
 }
 fn note_addr(w: &mut World, id: u64) { w.addr_ids.insert(address(id).to_bytes(), id); }
@@ -416,7 +418,7 @@ fn new_world(sc: &Scenario) -> World {
     let mut policy_idx = HashMap::new();
     for i in 0..N_POLICIES { policy_idx.insert(policy_script(i).hash().to_bytes(), i); }
     World { tb: TransactionBuilder::new(&cfg), utxos: sc.utxos.iter().cloned().collect(),
-            addr_ids: HashMap::new(), policy_idx }
+            addr_ids: HashMap::new(), rw_ids: HashMap::new(), policy_idx }
 }
 
 fn utxo(w: &World, id: u64) -> Option<TransactionUnspentOutput> {
@@ -465,7 +467,7 @@ fn run_op(w: &mut World, op: &Op, last_tx: &mut Option<Transaction>) -> OpRec {
                 None => w.tb.remove_withdrawals(),
                 Some(ws) => {
                     let mut b = WithdrawalsBuilder::new();
-                    for (a, c) in ws { b.add(&reward_address(*a), c).expect("key reward address"); }
+                    for (a, c) in ws { w.rw_ids.insert(reward_address(*a).to_address().to_bytes(), *a); b.add(&reward_address(*a), c).expect("key reward address"); }
                     w.tb.set_withdrawals_builder(&b);
                 }
             }
@@ -639,14 +641,17 @@ fn run_op(w: &mut World, op: &Op, last_tx: &mut Option<Transaction>) -> OpRec {
             OpRec { res: res_unit(r), tape: vec![], sel: None, attempts: 0 }
         }
         Op::DWd(ws) => {
+            let mut rw: HashMap<Vec<u8>, u64> = HashMap::new();
             let r = catch(|| -> Result<(), JsError> {
                 let mut coll = Withdrawals::new();
                 for (a, c, sc) in ws {
                     let ra = if *sc { RewardAddress::new(0, &Credential::from_scripthash(&scripthash(*a, 16))) } else { reward_address(*a) };
+                    rw.insert(ra.to_address().to_bytes(), *a);
                     coll.insert(&ra, c);
                 }
                 w.tb.set_withdrawals(&coll)
             });
+            for (k, v) in rw { w.rw_ids.insert(k, v); }
             OpRec { res: res_unit(r), tape: vec![], sel: None, attempts: 0 }
         }
         Op::Build => {
@@ -799,6 +804,17 @@ fn exec_rest(_sc: &Scenario, w: World, recs: Vec<OpRec>, last_tx: Option<Transac
         for (site, a) in &r.tape { s.push_str(&format!(" {} {}", *site as char, a.map(|v| v.to_string()).unwrap_or("e".into()))); }
         match &r.sel { None => s.push_str(" ~"), Some((ok, ids)) => { s.push_str(&format!(" {} {}", *ok as u8, ids.len())); for i in ids { s.push_str(&format!(" {}", i)); } } }
     }
+    // for the judge: the bytes of the built transaction (read by the model side's own CBOR reader, not by the library)
+    // and the scenario's identifier tables (address bytes -> id, reward account bytes -> id), sorted
+    match &last_tx { None => s.push_str(" TXB ~"), Some(tx) => s.push_str(&format!(" TXB {}", hex::encode(tx.to_bytes()))) }
+    let mut at: Vec<(u64, String)> = w.addr_ids.iter().map(|(k, v)| (*v, hex::encode(k))).collect();
+    at.sort();
+    s.push_str(&format!(" AT {}", at.len()));
+    for (id, h) in at { s.push_str(&format!(" {} {}", id, h)); }
+    let mut rt: Vec<(u64, String)> = w.rw_ids.iter().map(|(k, v)| (*v, hex::encode(k))).collect();
+    rt.sort();
+    s.push_str(&format!(" RT {}", rt.len()));
+    for (id, h) in rt { s.push_str(&format!(" {} {}", id, h)); }
     s
 }
 
@@ -924,6 +940,9 @@ fn gen_scenario(r: &mut Rng, stream: u32) -> Scenario {
         if r.chance(1, 4) {
             let k = r.range(1, 3);
             let es = (0..k).map(|_| { let a: i128 = match r.below(6) { 0 => -(1i128 << 64), 1 => -(r.range(1, 50) as i128), _ => r.range(1, 1_000_000) as i128 }; (policy_bytes(r.below(N_POLICIES)), gen_name(r), format!("{}", a)) }).collect();
+            // a Mint is a list: the same (policy, name) may occur twice, and set_mint then keeps the later quantity
+            let mut es: Vec<(Vec<u8>, Vec<u8>, String)> = es;
+            if r.chance(1, 2) { let (p0, n0, _) = es[0].clone(); es.push((p0, n0, format!("{}", r.range(1, 999)))); }
             pre.push(Op::DMint(r.chance(5, 6), es));
         }
         if r.chance(1, 3) { let cs = gen_certs(r, edge); let any_script = r.chance(1, 4); pre.push(Op::DCerts(cs.into_iter().map(|(t, c)| (t, c, any_script && r.chance(1, 2))).collect())); }
